@@ -281,7 +281,13 @@ inline void on_signal(int sig)
     // best effort; stdio in a signal handler is not strictly safe but the process ends here
     char buf[96];
     int n = snprintf(buf, sizeof(buf), "{\"e\":\"Abort\",\"why\":\"signal\",\"sig\":%d}\n", sig);
-    fflush(out().f);
+    static volatile int entered = 0;
+    // a second signal while the first one is being handled (stdio on a corrupted heap): write the line unbuffered and leave
+    if (!entered)
+    {
+        entered = 1;
+        fflush(out().f);
+    }
     if (write(fileno(out().f), buf, n) < 0) {}
     _exit(0);
 }
